@@ -8,7 +8,7 @@ from common import VERIF
 from props.c08 import rand_handler
 from props.c12 import extract
 
-RULE = ("real evaluator -> real aggregator -> real statistics loader: 1-4 class groups with names over letters, digits, "
+RULE = ("evaluator save_group_times and aggregator log_times chosen independently; subjects with a large almost perfectly segmented structure (values of the order 1e-5, written with an exponent); real evaluator -> real aggregator -> real statistics loader: 1-4 class groups with names over letters, digits, "
         "space, '-', '_', upper case; subject names over printable ASCII incl. tab-free punctuation, quotes, commas, "
         "'subject_name', leading '-'; metric selections (instance and global); results forced to NaN / inf / None / "
         "uncomputable through edge-case handlers and empty sides; several aggregators from one evaluator incl. "
@@ -29,15 +29,16 @@ def classify(v):
     return None if (math.isnan(f) or math.isinf(f)) else f
 
 
-def one_case(ctx, groups, cfg, gm, subjects, arrays, log_times, src, n_aggs=1):
-    inp = {"groups": groups, "cfg": cfg, "global_metrics": gm, "subjects": subjects, "log_times": log_times, "n_aggs": n_aggs,
+def one_case(ctx, groups, cfg, gm, subjects, arrays, log_times, src, n_aggs=1, sgt=None):
+    sgt = log_times if sgt is None else sgt         # the evaluator's save_group_times is independent of the aggregator's log_times
+    inp = {"groups": groups, "cfg": cfg, "global_metrics": gm, "subjects": subjects, "log_times": log_times, "save_group_times": sgt, "n_aggs": n_aggs,
            "arrays": [[list(p.shape), gen.arr_json(p), gen.arr_json(r)] for p, r in arrays], "src": src}
     d = VERIF / ".work" / f"c18_{os.getpid()}"
     shutil.rmtree(d, ignore_errors=True)
     d.mkdir(parents=True)
     try:
         with quiet(), np.errstate(all="ignore"):
-            ev = impl.mk_evaluator(cfg, groups=groups, global_metrics=gm, save_group_times=log_times)
+            ev = impl.mk_evaluator(cfg, groups=groups, global_metrics=gm, save_group_times=sgt)
             out = None
             for k in range(n_aggs):
                 out = str(d / f"cohort{k}.tsv")
@@ -83,6 +84,10 @@ def one_case(ctx, groups, cfg, gm, subjects, arrays, log_times, src, n_aggs=1):
         ctx.case(inp, (len(gnames) >= 2 and missing_any) or delim, sample={k2: inp[k2] for k2 in ("groups", "subjects", "global_metrics")})
         ctx.count(f"groups.{len(gnames)}")
         ctx.count("log_times" if log_times else "no_log_times")
+        ctx.count(f"save_group_times={sgt}.log_times={log_times}")
+        if any(abs(float(v)) < 1e-4 or abs(float(v)) >= 1e16 for s_ in subjects for g_ in gnames for v in expected[s_][g_].values()
+               if isinstance(v, (int, float)) and v is not None and not isinstance(v, bool) and float(v) == float(v) and float(v) != 0 and abs(float(v)) != float("inf")):
+            ctx.count("has_value_written_with_exponent")
         if missing_any:
             ctx.count("has_missing_values")
         if fails:
@@ -169,8 +174,19 @@ def rand_case(ctx, tag, i):
         if rng.random() < 0.2:
             p = np.zeros_like(p)
         arrays.append((p, r))
+    if rng.random() < 0.3:
+        # a large, almost perfectly segmented structure: relative volume difference of the order 1e-5, written with an exponent
+        side = rng.randint(120, 160)
+        r = np.zeros((side + 6, side + 6), np.uint8)
+        r[3:3 + side, 3:3 + side] = used[0]
+        p = r.copy()
+        for _ in range(rng.randint(1, 2)):
+            y, x = rng.choice([(3, 3), (2, 3), (3 + side - 1, 3 + side - 1), (3 + side, 3 + side - 1)])
+            p[y, x] = used[0] if p[y, x] == 0 else 0
+        arrays[rng.randrange(len(arrays))] = (p, r)
     log_times = rng.random() < 0.3
-    one_case(ctx, groups, cfg, gm, subjects, arrays, log_times, f"{tag}{i}", n_aggs=rng.choice([1, 1, 2, 3]))
+    one_case(ctx, groups, cfg, gm, subjects, arrays, log_times, f"{tag}{i}", n_aggs=rng.choice([1, 1, 2, 3]),
+             sgt=rng.random() < 0.4)
 
 
 def permuted_continuation(ctx, k):
@@ -252,4 +268,5 @@ def replay(ctx, rec):
             permuted_continuation(ctx, k)
         return
     arrays = [(np.array(p, dtype=np.uint8).reshape(sh), np.array(r, dtype=np.uint8).reshape(sh)) for sh, p, r in i["arrays"]]
-    one_case(ctx, i["groups"], i["cfg"], i["global_metrics"], i["subjects"], arrays, i["log_times"], "replay", n_aggs=i.get("n_aggs", 1))
+    one_case(ctx, i["groups"], i["cfg"], i["global_metrics"], i["subjects"], arrays, i["log_times"], "replay", n_aggs=i.get("n_aggs", 1),
+             sgt=i.get("save_group_times"))
